@@ -319,6 +319,9 @@ def replay(ctx, res, data):
     lines = []
     for i, v in enumerate(data.get('violations', [])):
         c = v.get('case', '')
+        w = c.split(' ', 2)
+        if w[0] == 'case' and len(w) == 3:
+            c = w[2]
         if ' | ' in c and not c.startswith('C29'):
             lines.append('case %d %s' % (i, c))
     run(ctx, res, lines=lines or None)
